@@ -376,7 +376,7 @@ func (cfg *c44Session) checkTampered(res [2]c44PartyResult, d *c44Duplex) (strin
 		}
 	}
 	if !d.hit {
-		return "beyond-stream", nil
+		return "beyond-stream", cfg.checkClean(res) // offset past the end of this run's stream: a clean session
 	}
 	recv, sender := 1-t.dir, t.dir
 	r := res[recv]
@@ -731,7 +731,12 @@ func TestVerif_C44(t *testing.T) {
 			// EIP-8 padding is 100..199 random bytes: enumerate offsets up to the largest possible stream
 			probe := mkSession(h)
 			_, d0 := probe.run()
-			maxLen := max(d0.written[0], d0.written[1]) + 100
+			// (the largest possible handshake packet is 484 bytes; the frame bytes that follow are deterministic)
+			frameBytes := 0
+			for _, n := range d0.writes[0][1:] {
+				frameBytes += n
+			}
+			maxLen := 520 + frameBytes
 			r.Bound("hs.tamper_offsets_per_direction", maxLen)
 			r.Parallel(2*maxLen, func(i int) {
 				dir, off := i/maxLen, i%maxLen
